@@ -128,14 +128,14 @@ Qed.
 
 Lemma o_after_close_sound : o_after_close sc ob = true <-> s_after_close sc ob.
 Proof.
-  unfold o_after_close, s_after_close. split.
-  - intros H c d Hc Hd e He Hre. rewrite Hc, Hd in H. rewrite forallb_forall in H.
-    specialize (H e He). rewrite Hre in H. cbn [negb orb] in H. apply Z.leb_le. exact H.
-  - intros H. destruct (close_step sc) as [c|]; [|reflexivity].
-    destruct (done_step ob c) as [d|] eqn:Ed; [|reflexivity].
+  unfold o_after_close, s_after_close. rewrite forallb_forall. split.
+  - intros H c d Hc Hd e He Hre. specialize (H c Hc). rewrite Hd in H.
+    rewrite forallb_forall in H. specialize (H e He). rewrite Hre in H.
+    cbn [negb orb] in H. apply Z.leb_le. exact H.
+  - intros H c Hc. destruct (done_step ob c) as [d|] eqn:Ed; [|reflexivity].
     apply forallb_forall. intros e He.
     destruct (is_recv (snd e)) eqn:Hre; [|reflexivity].
-    cbn [negb orb]. apply Z.leb_le. apply (H c d eq_refl Ed e He Hre).
+    cbn [negb orb]. apply Z.leb_le. apply (H c d Hc Ed e He Hre).
 Qed.
 
 Theorem script_oracle_sound_w : forall w,
@@ -229,4 +229,55 @@ Theorem rush_oracle_sound : forall late, rush_oracle late = true <-> rush_spec l
 Proof.
   intro late. unfold rush_oracle, rush_spec. rewrite forallb_forall.
   split; intros H l Hl; specialize (H l Hl); destruct l; try reflexivity; discriminate.
+Qed.
+
+(* ---------------------------------------------------------------------------------------- *)
+(* concurrent runs with Close *)
+
+Theorem cc_oracle_sound_w : forall calls seqs closes w,
+  cc_oracle calls seqs closes w = true <-> cc_ok calls seqs closes w.
+Proof.
+  intros calls seqs closes w. unfold cc_oracle, cc_ok.
+  rewrite !andb_true_iff, !nodupb_spec, !forallb_forall. split.
+  - intros [[[[[H1 H2] H3] H4] H5] H6].
+    split; [exact H1|]. split; [exact H2|]. split.
+    { intros x Hx. apply memZ_In. apply H3. exact Hx. }
+    split. { intros s Hs. apply subseqb_spec. apply H4. exact Hs. }
+    split.
+    { intros a b Ha Hb Hlt Hia Hib. specialize (H5 a Ha). rewrite forallb_forall in H5.
+      specialize (H5 b Hb). apply Z.ltb_lt in Hlt. apply memZ_In in Hia, Hib.
+      rewrite Hlt, Hia, Hib in H5. exact H5. }
+    intros s c Hs Hc Hl Hin. specialize (H6 s Hs). rewrite forallb_forall in H6.
+    specialize (H6 c Hc). rewrite Hl in H6. apply memZ_In in Hin. rewrite Hin in H6. discriminate.
+  - intros (H1 & H2 & H3 & H4 & H5 & H6).
+    split; [split; [split; [split; [split; [exact H1 | exact H2] | ] | ] | ] | ].
+    + intros x Hx. apply memZ_In. apply H3. exact Hx.
+    + intros s Hs. apply subseqb_spec. apply H4. exact Hs.
+    + intros a Ha. apply forallb_forall. intros b Hb.
+      destruct (c_end a <? c_start b) eqn:E1; [|reflexivity].
+      destruct (memZ (c_val a) w) eqn:E2; [|reflexivity].
+      destruct (memZ (c_val b) w) eqn:E3; [|reflexivity].
+      cbn [andb]. apply H5; try assumption; [apply Z.ltb_lt; exact E1 | apply memZ_In; exact E2
+                                             | apply memZ_In; exact E3].
+    + intros s Hs. apply forallb_forall. intros c Hc.
+      destruct (late_started closes c) eqn:El; [|reflexivity].
+      apply negb_true_iff. apply memZ_false. apply (H6 s c Hs Hc El).
+Qed.
+
+Theorem cc_oracle_sound : forall calls seqs closes,
+  (exists w, cc_oracle calls seqs closes w = true) <-> cc_spec calls seqs closes.
+Proof.
+  intros. unfold cc_spec. split; intros [w H]; exists w; apply cc_oracle_sound_w; exact H.
+Qed.
+
+(* ---------------------------------------------------------------------------------------- *)
+(* one channel subscribed several times *)
+
+Theorem dup_oracle_sound : forall k nb leave shared other,
+  dup_oracle k nb leave shared other = true <-> dup_spec k nb leave shared other.
+Proof.
+  intros. unfold dup_oracle, dup_spec. rewrite andb_true_iff, eqb_lz_spec, forallb_forall.
+  split; intros [H1 H2]; (split; [exact H1|]).
+  - intros r Hr. apply eqb_lz_spec. apply H2. apply in_seq. lia.
+  - intros r Hr. apply eqb_lz_spec. apply H2. apply in_seq in Hr. lia.
 Qed.
